@@ -254,6 +254,16 @@ def rule2_static_init(ctx, fl, v):
     okc = len(cas) == 1 and const_int(cas[0].ops[2]) == INITING and g.field(cas[0]) in (MAGIC, '') and \
         all(k in g.insts and g.insts[k].op == 'load' and g.insts[k].volatile for k in g.sources(cas[0].ops[1]))
     ctx.ob('C16.2', 'handle[%s]: election CAS(magic: observed -> initializing)' % fl, okc, 'exactly one thread converts', loc=g.loc)
+    for c in cas:
+        exp = c.ops[1]
+        g1 = any(ic.op == 'icmp' and ic.pred in ('ne', 'eq') and const_int(ic.ops[1]) == INITING and g.sources(ic.ops[0]) == g.sources(exp) and
+                 g.on_edge(ic.id, ic.pred == 'ne', c) for ic in g.order)
+        g2 = any(ic.op == 'icmp' and ic.pred in ('ne', 'eq') and const_int(ic.ops[1]) == MAGIC_NO and g.sources(ic.ops[0]) == g.sources(exp) and
+                 g.on_edge(ic.id, ic.pred == 'ne', c) for ic in g.order)
+        ctx.ob('C16.2', 'handle[%s]: election only from an unconverted, not-being-converted value' % fl, g1 and g2,
+               'the CAS is attempted only where the observed magic is neither magic_no nor initializing: a thread that sees '
+               '"initializing" must wait, not win CAS(initializing -> initializing) and convert a mutex that is already in use',
+               loc=c.loc)
     pubs = [s for s in g.order if s.op == 'store' and const_int(s.ops[0]) == MAGIC_NO and s.volatile]
     ctx.ob('C16.2', 'handle[%s]: publishes magic_no once' % fl, len(pubs) == 1, 'one volatile store of the magic number', loc=g.loc)
     copies = [c for c in g.calls() if c.callee and c.callee.startswith('llvm.memcpy') and g.sources(g.ap(c.args[0]).root) == {'a0'}] + \
@@ -484,6 +494,8 @@ MUTANTS = [
      'edits': [(WRAP, "      *m = mi;\n      myth_rwbarrier();\n      *magic_p = myth_mutex_magic_no;", "      *m = mi;\n      *magic_p = myth_mutex_magic_no;")]},
     {'name': 'conversion elected without CAS', 'expect': 'C16.2',
      'edits': [(WRAP, "\t&& __sync_bool_compare_and_swap(magic_p, magic, myth_mutex_magic_no_initializing)) {", "\t&& ((*magic_p = myth_mutex_magic_no_initializing), 1)) {")]},
+    {'name': 'conversion CAS also from the initializing value (seed C16/m2)', 'expect': 'C16.2',
+     'edits': [(WRAP, "    if (magic != myth_mutex_magic_no_initializing\n\t&& __sync_bool_compare_and_swap(", "    if (__sync_bool_compare_and_swap(")]},
     {'name': '--wrap=pthread_mutex_trylock missing from the link options', 'expect': 'C16.4',
      'edits': [(OPTS, "-Wl,--wrap=pthread_mutex_trylock\n", "")]},
     {'name': 'myth_mutex_t outgrows pthread_mutex_t', 'expect': 'C16.5',
